@@ -152,7 +152,7 @@ def run_round(n_clients, seed):
     overlap = len({r[1] for r in records})
     for i, (plan, out) in enumerate(zip(plans, results)):
         tag = plan['tag']
-        expect_boom = plan['behaviour'] == 'abort-mid' or (plan['behaviour'] == 'abort-gen' and plan['find'] and plan['nmatch'] >= 1)
+        expect_boom = plan['behaviour'] == 'abort-mid' or (plan['behaviour'] == 'abort-gen' and plan['find'])
         if isinstance(out['error'], Exception):
             raise Violation('%s:loopback:client-error:%s' % (PROP, lib_frame(out['error'])),
                             'client %s (%s) failed with %r while %d other clients were active; server: %s'
@@ -286,20 +286,42 @@ def assoc_script(j, variant):
             'end': ('release', 'abort', 'timeout')[(j + variant) % 3]}
 
 
+YIELD_HOOK = threading.local()
+
+
+def handler_yield():
+    """Application handlers are user code that may block (I/O, database): under the baton scheduler every
+    handler is a scheduling point too."""
+    fn = getattr(YIELD_HOOK, 'fn', None)
+    if fn is not None:
+        fn()
+
+
 def make_shared_server():
     import pydicom
     from pynetdicom2 import sopclass, statuses, dimsemessages
     log = lb.Recorder()
 
+    def on_echo(context):
+        handler_yield()
+        return statuses.SUCCESS
+
     def on_store(context, ds):
+        handler_yield()
         got = pydicom.dcmread(ds)
         log.add(('store', threading.get_ident(), tuple(map(str, context)), str(got.PatientID)))
         return statuses.Status(0xB000 if str(got.PatientID).endswith('1') else 0, dimsemessages.CStoreRSPMessage)
 
     def on_find(context, ds):
+        handler_yield()
         n = int(ds.StudyID)
-        return iter([(svc.simple_ds(PatientName='%s^%d' % (ds.PatientID, i)), statuses.C_FIND_PENDING) for i in range(n)])
-    ae = svc.make_server({'on_receive_store': on_store, 'on_receive_find': on_find},
+
+        def gen():
+            for i in range(n):
+                handler_yield()
+                yield svc.simple_ds(PatientName='%s^%d' % (ds.PatientID, i)), statuses.C_FIND_PENDING
+        return gen()
+    ae = svc.make_server({'on_receive_echo': on_echo, 'on_receive_store': on_store, 'on_receive_find': on_find},
                          [sopclass.verification_scp, sopclass.storage_scp, sopclass.qr_find_scp], max_pdu=16384)
     return ae, log
 
@@ -350,6 +372,7 @@ def run_acceptors(scripts, order):
         tl.index = j
         try:
             if baton is not None:
+                YIELD_HOOK.fn = lambda: baton.yield_(j)
                 baton.wait_turn(j)
             asceprovider.AssociationAcceptor(fd.FakeRequest(), ('127.0.0.1', 5000 + j), ae, ae.max_pdu_length)
         except BaseException as exc:    # noqa
@@ -431,7 +454,7 @@ def run(ctx):
                 'instance UIDs and sizes; a third aborting after the first store or inside a half-consumed C-FIND '
                 'generator) against one server entity over loopback TCP, R rounds with permuted start order; part b: '
                 '2-4 AssociationAcceptor.handle() bodies sharing one AE on scripted providers, interleaved at every '
-                'provider send/receive by a baton scheduler whose order is Hypothesis-drawn, each compared with the '
+                'provider send/receive and inside every application handler by a baton scheduler whose order is Hypothesis-drawn, each compared with the '
                 'same association run alone; _new_msg_id() from concurrent threads; non-trivial = >=2 associations '
                 'overlapping (>=2 baton switches / >=2 clients)')
     ctx.assumptions = ['part a samples OS schedules; part b enumerates interleavings at primitive granularity only',
